@@ -212,8 +212,9 @@ PROPS = {
         modules=['Pbc.Props.C07', 'Pbc.Props.C07b'],
         theorems=['Pbc.Props.C07.freeMsg_log', 'Pbc.Props.C07.freeVal_log', 'Pbc.Props.C07.freeSlots_log',
                   'Pbc.Props.C07.foldl_free_log', 'Pbc.Props.C07.first_alloc_refused',
-                  # whole-call accounting for every input and refusal schedule (messages without embedded messages / oneofs)
-                  'Pbc.Props.C07.acct_freeMsg', 'Pbc.Props.C07.parseRequiredH_acct', 'Pbc.Props.C07.parseMemberH_acct',
+                  # whole-call accounting for every input and refusal schedule (messages without embedded messages)
+                  'Pbc.Props.C07.acct_freeMsg', 'Pbc.Props.C07.parseRequiredH_acct', 'Pbc.Props.C07.oneofH_acct',
+                  'Pbc.Props.C07.parseMemberH_oneof', 'Pbc.Props.C07.parseMemberH_plain', 'Pbc.Props.C07.parseMemberH_acct',
                   'Pbc.Props.C07.parseAllH_acct', 'Pbc.Props.C07.scanLoopH_acct', 'Pbc.Props.C07.allocArrays_acct',
                   'Pbc.Props.C07.unpackMsgH_eq', 'Pbc.Props.C07.unpackMsgH_acct', 'Pbc.Props.C07.unpack_fails_clean',
                   'Pbc.Props.C07.unpack_then_free_clean'],
@@ -226,7 +227,8 @@ PROPS = {
         modules=['Pbc.Props.C07', 'Pbc.Props.C07b', 'Pbc.Props.C18'],
         theorems=['Pbc.Props.C07.freeMsg_log', 'Pbc.Props.C07.first_alloc_refused', 'Pbc.Props.C18.append_inv',
                   'Pbc.Props.C18.append_log',
-                  'Pbc.Props.C07.acct_freeMsg', 'Pbc.Props.C07.parseRequiredH_acct', 'Pbc.Props.C07.parseMemberH_acct',
+                  'Pbc.Props.C07.acct_freeMsg', 'Pbc.Props.C07.parseRequiredH_acct', 'Pbc.Props.C07.oneofH_acct',
+                  'Pbc.Props.C07.parseMemberH_oneof', 'Pbc.Props.C07.parseMemberH_plain', 'Pbc.Props.C07.parseMemberH_acct',
                   'Pbc.Props.C07.parseAllH_acct', 'Pbc.Props.C07.scanLoopH_acct', 'Pbc.Props.C07.allocArrays_acct',
                   'Pbc.Props.C07.unpackMsgH_eq', 'Pbc.Props.C07.unpackMsgH_acct', 'Pbc.Props.C07.unpack_fails_clean',
                   'Pbc.Props.C07.unpack_then_free_clean'],
